@@ -13,7 +13,7 @@ use crate::ast::{
 use crate::formatting::buffer::Buffer;
 use crate::formatting::VHDLFormatter;
 use crate::syntax::Kind;
-use crate::{HasTokenSpan, TokenAccess, TokenSpan};
+use crate::{HasTokenSpan, TokenAccess, TokenId, TokenSpan};
 use vhdl_lang::ast::{FunctionSpecification, ProcedureSpecification, SubprogramBody};
 use vhdl_lang::indented;
 
@@ -69,6 +69,8 @@ impl VHDLFormatter<'_> {
             if specification.header.is_some() {
                 buffer.decrease_indent();
             }
+        } else {
+            self.format_parameter_keyword_without_list(specification.span.end_token, buffer);
         }
     }
 
@@ -93,6 +95,12 @@ impl VHDLFormatter<'_> {
                 self.format_parameter_keyword_separator(parameter, buffer);
             }
             self.format_interface_list(parameter, buffer);
+        } else {
+            let return_token = match &specification.return_identifier {
+                Some(return_identifier) => return_identifier.tree.token - 1,
+                None => specification.return_type.span.start_token - 1,
+            };
+            self.format_parameter_keyword_without_list(return_token - 1, buffer);
         }
         buffer.push_whitespace();
         if let Some(return_identifier) = &specification.return_identifier {
@@ -117,6 +125,16 @@ impl VHDLFormatter<'_> {
     fn format_parameter_keyword_separator(&self, parameter: &InterfaceList, buffer: &mut Buffer) {
         if self.tokens.index(parameter.span.start_token).kind == Kind::Parameter {
             buffer.push_whitespace();
+        }
+    }
+
+    /// The `parameter` keyword can be present without a parameter list behind it.
+    /// It is then not part of the AST but the last token of a procedure specification
+    /// resp. the token in front of the `return` keyword of a function specification.
+    fn format_parameter_keyword_without_list(&self, token: TokenId, buffer: &mut Buffer) {
+        if self.tokens.index(token).kind == Kind::Parameter {
+            buffer.push_whitespace();
+            self.format_token_id(token, buffer);
         }
     }
 
@@ -280,6 +298,27 @@ function \"+\" parameter (
     }
 
     #[test]
+    fn test_subprogram_declaration_with_parameter_keyword_without_parameters() {
+        check_subprogram_declaration("procedure foo parameter;");
+        check_subprogram_declaration("function foo parameter return natural;");
+        check_subprogram_declaration("function \"+\" parameter return natural;");
+        check_subprogram_declaration(
+            "\
+procedure foo
+    generic (
+        x: natural
+    ) parameter;",
+        );
+        check_subprogram_declaration(
+            "\
+function foo
+    generic (
+        x: natural
+    ) parameter return natural;",
+        );
+    }
+
+    #[test]
     fn test_subprogram_declaration_multiple_parameters() {
         check_subprogram_declaration(
             "\
@@ -347,6 +386,22 @@ function foo(
 ) return natural is
 begin
 end function foo;",
+        );
+    }
+
+    #[test]
+    fn test_subprogram_body_with_parameter_keyword_without_parameters() {
+        check_declaration(
+            "\
+procedure foo parameter is
+begin
+end procedure foo;",
+        );
+        check_declaration(
+            "\
+function \"+\" parameter return natural is
+begin
+end function \"+\";",
         );
     }
 
